@@ -56,7 +56,12 @@ class C03(Engine):
                 "build": rng.pick(["san", "san", "small"]),
                 # where the source lives must not matter to what the file carries (ELF stores the name)
                 "srcpath": rng.pick(["a.asm", "a.asm", "src/a.asm", "./a.asm", "/sim/w/deep/dir/prog.asm", "../w/a.asm", "x/../a.asm"]),
-                "pad_lines": (rng.pick([32760, 65528, 65530, 65532, 131064]) + rng.below(6)) if rng.chance(1, 20) else 0}
+                "pad_lines": (rng.pick([32760, 65528, 65530, 65532, 131064]) + rng.below(6)) if rng.chance(1, 20) else 0,
+                # the type of a file is told by what follows the LAST dot of its name, wherever it lives
+                "outname": rng.pick(["out.%s", "out.%s", "./out.%s", "v1.2/out.%s", "a.b.%s", "rel.1/x.y.%s"]),
+                # .align in front of a segment that starts on that boundary anyway, and after the last one: moves the address,
+                # emits nothing
+                "align": [rng.pick([0, 0, 2, 4, 16, 32, 256]) for _ in range(len(img["segments"]) + 1)] if rng.chance(1, 4) else None}
 
     def run(self, ex, plan):
         res = RunResult()
@@ -74,6 +79,32 @@ class C03(Engine):
             ex = self.variant(ex0, "san")
             res.probe("small_build_skipped_wide_image")
         text = images.render_image(img)
+        if plan.get("align"):
+            out_lines = []
+            seg_i = 0
+            end_prev = -1
+            for l in text.split("\n"):
+                if l.startswith(".org "):
+                    a, d = img["segments"][seg_i]
+                    n = plan["align"][seg_i]
+                    seg_i += 1
+                    if n and a % n == 0 and a - (n - 1) > end_prev and a >= n and bpa == 1:
+                        # start a few bytes early and let .align bring the address up to the segment's start
+                        out_lines.append(".org 0x%x" % (a - (n - 1)))
+                        out_lines.append(".align_bytes %d" % n)
+                        res.probe("align_before_segment")
+                        end_prev = a + len(d) - 1
+                        continue
+                    end_prev = a + len(d) - 1
+                if l.startswith(".export") and plan["align"][-1] and bpa == 1 and "@@tail" not in out_lines:
+                    pass
+                out_lines.append(l)
+            if plan["align"][-1] and bpa == 1:
+                # after the last byte: nothing follows, nothing may be added
+                idx = max(i for i, l in enumerate(out_lines) if l.startswith(".db "))
+                out_lines.insert(idx + 1, ".align_bytes %d" % plan["align"][-1])
+                res.probe("align_after_last_byte")
+            text = "\n".join(out_lines)
         if plan.get("pad_lines"):
             # a tall source: the data sits on source lines around 2^15, 2^16, 2^17 (line numbers are kept per byte of the image)
             first, rest = text.split("\n", 1)
@@ -90,15 +121,18 @@ class C03(Engine):
                 continue
             # (SREC_16 means "record size chosen per line from the address", and SREC_24 writes S3 records for addresses
             # that need them: no S-record size limit below 2^32)
-            out = "/sim/w/out." + fmt
+            oname = plan.get("outname", "out.%s") % fmt
+            out = "/sim/w/" + oname[2:] if oname.startswith("./") else "/sim/w/" + oname
             srcpath = plan.get("srcpath", "a.asm")
             files = {(srcpath if srcpath.startswith("/") else "/sim/w/" + srcpath): src}
             if "x/.." in srcpath:
                 files["/sim/w/x/.keep"] = b""
+            if "/" in oname[2:]:
+                files["/sim/w/" + oname.rsplit("/", 1)[0] + "/.keep"] = b""
             if plan["stale"]:
                 files[out] = b"\xa5" * plan["stale"]
             env = {"clock0": plan["clock0"], "chunk_seed": plan["chunk_seed"], "event_ceiling": 50000000}
-            o = ex.call(build_request(MODE_ASM, ["naken_asm"] + plan["flags"] + ["-type", fmt, "-o", "out." + fmt, srcpath],
+            o = ex.call(build_request(MODE_ASM, ["naken_asm"] + plan["flags"] + ["-type", fmt, "-o", oname, srcpath],
                                       files, env=env, cpu_ms=10000))
             res.absorb(o)
             digests.append(o.digest())
@@ -193,7 +227,7 @@ class C03(Engine):
                     res.probe("bin_loadback_skipped_bpa")
                     continue
                 argv += ["-bin", "-address", "0x%x" % lo]
-            argv.append("out." + fmt)
+            argv.append(oname)
             u = ex.call(build_request(MODE_UTIL, argv, {out: data}, console=console,
                                       env={"chunk_seed": plan["chunk_seed"], "event_ceiling": 50000000}, cpu_ms=10000))
             res.absorb(u)
